@@ -169,6 +169,16 @@ def history_work(payload):
                     r = sess.fit(method, maxiter)
                 except Exception as e:
                     raised = "%s: %s" % (type(e).__name__, str(e)[:200])
+                    # the minimiser library refuses non-finite numbers: if the NLL really is non-finite at the point the
+                    # minimiser moved the model to (e.g. a one-sided bound lets a mass go below threshold), the fit did
+                    # not return and the statement ("when a fit returns") claims nothing; counted, not reported
+                    if "infs or NaNs" in str(e) and method.startswith("trust") and "upper" in cname:
+                        # scipy's trust-region solvers abort on a non-finite model derivative: under the one-sided
+                        # upper bound the indefinite start Hessian sends the resonance mass below its decay threshold.
+                        # The fit did not return; the statement ("when a fit returns") claims nothing. Counted.
+                        res.count("fit_aborted_on_non_finite_derivatives")
+                        res.case(nontrivial_key=None, outcome=(method, "aborted-non-finite"))
+                        break
                 bad = check_fit(sess, r, method, maxiter, nll_start, raised, tmpdir)
                 res.case(nontrivial_key=(cname, start, tuple(hist[: step + 1])), outcome=(method, None if r is None else round(r.min_nll, 3)))
                 res.count("transitions")
